@@ -64,6 +64,7 @@ structure RecOK (cfg : Cfg) (t : MRec) : Prop where
 structure InstOK (cfg : Cfg) (i : Inst) : Prop where
   infl : i.inflight = []
   recs : ∀ p, p ∈ i.recs → RecOK cfg p.2
+  srt : AL.Sorted i.recs
 
 /-- states reachable without a close: not hung, nothing on disk that the live instance does not
     hold, no empty live instance -/
@@ -461,7 +462,7 @@ theorem cleared_ok (cfg : Cfg) (t : MRec) (hwf : t.c.WF) (hch : cfg.resetsFlags 
 
 theorem instOK_insert (cfg : Cfg) (i : Inst) (k : Key) (t : MRec) (hi : InstOK cfg i) (ht : RecOK cfg t)
     (i' : Inst) (hr : i'.recs = AL.insert k t i.recs) (hf : i'.inflight = []) : InstOK cfg i' := by
-  refine ⟨hf, fun p hp => ?_⟩
+  refine ⟨hf, fun p hp => ?_, by rw [hr]; exact AL.sorted_insert _ _ _ hi.srt⟩
   rw [hr] at hp
   rcases AL.mem_insert k t i.recs p hp with h | h
   · rw [h]; exact ht
